@@ -285,13 +285,17 @@ func (l *Log) SignersFor(i int) Signers {
 	if p := l.PrevForRef(i); p >= 0 {
 		from = l.entries()[p].Target
 	}
-	key := world.ChangeKey(e.Ref, from, l.treeOfTarget(e.Target))
+	to := l.treeOfTarget(e.Target)
+	if e.TagCommit != "" {
+		to = e.TagCommit // a tag is approved for the commit it points to
+	}
+	key := world.ChangeKey(e.Ref, from, to)
 	if a, ok := att.Authorizations[key]; ok {
 		for k := range a {
 			s.EnvelopeKeys[k] = true
 		}
 	}
-	if cr, ok := att.Reviews[key]; ok {
+	if cr, ok := att.Reviews[key]; ok && e.TagCommit == "" {
 		for app, r := range cr {
 			s.Approvers[app] = map[string]bool{}
 			for _, id := range r.Approvers {
